@@ -36,6 +36,9 @@ THEOREMS = [
     "OllamaVerif.Sched.reach_invAll",
     "OllamaVerif.Sched.reach_inv",
     "OllamaVerif.Tie.C01.tree_variant_good",
+    "OllamaVerif.Tie.C01.evict_region_is_atomic",
+    "OllamaVerif.Tie.C01.submit_never_blocks",
+    "OllamaVerif.Tie.C01.wait_unload_is_pure",
     "OllamaVerif.Tie.C01.expired_region_is_atomic",
 ]
 
